@@ -171,8 +171,10 @@ static carquet_status_t flush_current_page(carquet_column_writer_internal_t* wri
         return status;
     }
 
-    /* Update statistics */
-    writer->total_uncompressed_size += uncompressed_size;
+    /* Update statistics: total_uncompressed_size counts the page headers as well
+     * (parquet.thrift: "total byte size of all uncompressed pages in this column
+     * chunk (including the headers)") */
+    writer->total_uncompressed_size += (int64_t)(page_size - (size_t)compressed_size) + uncompressed_size;
     writer->total_compressed_size += compressed_size;
     writer->num_pages++;
 
